@@ -25,8 +25,6 @@ KNOWN_TEXT = {
                "about 300000 levels end in a fatal stack overflow in astutil.Resolve inside parser.ParseFile",
     "F-C02-3": "b: <=3, b: {if false {x: 1}}: unbounded recursion validateValue -> BinOp -> Vertex.Finalize -> unify "
                "in the evaluator (fatal stack overflow)",
-    "F-C02-4": "BuildFile on the partial AST returned with a parse error panics 'not a string label' "
-               "(malformed import path that is referenced)",
     "F-C02-5": "h: list.FlattenN([list.Sort(h, list.Ascending), 1], 0): self reference through list.Sort recurses "
                "without bound in the evaluator (fatal stack overflow)",
     "F-C02-6": "list.Range has no bound on the number of elements (list.Range(0, 1e10, 1) runs until the CPU limit / memory cap)",
